@@ -748,7 +748,8 @@ impl Object {
 	/// Puts this JSON object in canonical form according to
 	/// [RFC 8785](https://www.rfc-editor.org/rfc/rfc8785#name-generation-of-canonical-jso).
 	///
-	/// This will canonicalize the entries and sort them by key.
+	/// This will canonicalize the entries and sort them by key
+	/// (UTF-16 code unit order).
 	/// Entries with the same key are sorted by value.
 	#[cfg(feature = "canonicalize")]
 	pub fn canonicalize_with(&mut self, buffer: &mut ryu_js::Buffer) {
@@ -756,7 +757,20 @@ impl Object {
 			item.canonicalize_with(buffer);
 		}
 
-		self.sort()
+		// RFC 8785 sorts members by their keys compared as arrays of UTF-16
+		// code units, which differs from the `str` order (code points) between
+		// U+E000..U+FFFF and the supplementary planes.
+		self.entries.sort_by(|a, b| {
+			a.key
+				.encode_utf16()
+				.cmp(b.key.encode_utf16())
+				.then_with(|| a.value.cmp(&b.value))
+		});
+		self.indexes.clear();
+
+		for i in 0..self.entries.len() {
+			self.indexes.insert(&self.entries, i);
+		}
 	}
 
 	/// Puts this JSON object in canonical form according to
